@@ -471,7 +471,7 @@ fn fam_raw_reuse(ctx: &CaseCtx, cov: &mut Cov) -> CaseOut {
     let first = match kind {
         0 => Sym::Lit(rng.byte()),
         1 => Sym::ShortRep,
-        _ => Sym::Rep { idx: rng.below(4) as u8, len: pick_len(&mut rng, false) },
+        _ => Sym::Rep { idx: rng.below(4) as u8, len: pick_len(&mut rng, false).min(out1.len() as u32).max(2) },
     };
     let mut model = Model::new(props);
     let mut h1 = Vec::new();
@@ -486,7 +486,10 @@ fn fam_raw_reuse(ctx: &CaseCtx, cov: &mut Cov) -> CaseOut {
     e2.allow_bad_ref = true;
     e2.fabricate = Some(0);
     let _ = e2.push(&first);
-    for _ in 0..rng.range(0, 4) {
+    // the size in effect cannot be changed without reset: make the second stream
+    // exactly as long as the first, so that a decoder lacking the guard reaches a
+    // clean end (and is caught returning Ok with fabricated bytes)
+    while e2.hist.len() < out1.len() {
         let _ = e2.push(&Sym::Lit(rng.byte()));
     }
     let (pay2, _, _) = e2.finish();
